@@ -97,6 +97,10 @@ macro_rules! exact_body {
 }
 
 #[kani::proof]
+#[kani::unwind(38)]
+fn c18_exact_w2() { exact_body!(2, 36) }
+
+#[kani::proof]
 #[kani::unwind(42)]
 fn c18_exact_w3() { exact_body!(3, 40) }
 
